@@ -115,6 +115,21 @@ def fields(codes):
     return [FIELD[c - 200] for c in sorted(codes) if 201 <= c <= 209]
 
 
+def differing_fields():
+    """the conventions in which a SQL flavour of Model/Sem.v (fl_sqlite, fl_postgres) really differs from fl_pandas, read from the
+    model's source: only those can account for a Pandas-vs-SQL difference (several were repaired in /repo and are equal now)"""
+    txt = open(os.path.join(lib.COQ, "theories", "Model", "Sem.v")).read()
+    fl = {}
+    for name, bits in re.findall(r"Definition\s+(fl_\w+)\s*:=\s*mkfl((?:\s+(?:true|false))+)\s*\.", txt):
+        fl[name] = [b == "true" for b in bits.split()]
+    base = fl.get("fl_pandas")
+    out = set()
+    for other in ("fl_sqlite", "fl_postgres"):
+        if base and other in fl and len(fl[other]) == len(base) == len(FIELD):
+            out |= {FIELD[i + 1] for i, (x, y) in enumerate(zip(base, fl[other])) if x != y}
+    return out or set(FIELD.values())
+
+
 def relevant_causes(codes, ordered):
     """the causes that matter for the comparison the oracle makes: the strict walk when the row order is compared,
     the multiset walk otherwise"""
@@ -149,7 +164,8 @@ def shaped_families(rng, tabs):
     wkey    the order / partition column of a window is (re)defined by the extend directly below it
     ccol    concat_rows of two pipelines whose SQL steps list the columns in different orders (grouped project, rename, map, join, order_rows)
     join    joins of sub-pipelines, all four types, unmatched rows on both sides, coalesced common columns
-    order   order_rows with limit under further steps; ties"""
+    order   order_rows with limit under further steps; ties
+    near    sibling sub-queries differing in one place (CTE cache keys)"""
     t1, t2 = tabs[0], tabs[1]
     T1, T2 = {"op": "table", "name": t1["name"]}, {"op": "table", "name": t2["name"]}
     n1 = _numcols(t1, uid=False) or ["uid"]
@@ -251,13 +267,33 @@ def shaped_families(rng, tabs):
     cc.append({"op": "concat_rows", "src": others[0], "b": others[2], "id_column": None, "a_name": "l", "b_name": "r"})
     cc.append({"op": "project", "src": {"op": "concat_rows", "src": plain, "b": others[1], "id_column": "src", "a_name": "l", "b_name": "r"},
                "ops": {"t": "v.max()", "n": "_size()"}, "group_by": ["src"]})
+    # --- near: two sibling sub-queries that differ in ONE place only (the right source of a join, a constant, an aggregate, a
+    #     predicate, a limit, the join type) combined by concat_rows / natural_join: a CTE cache (use_cte_elim) or any other memo whose
+    #     key is too coarse would replace the second by the first
+    nr = F["near"] = []
+    L = {"op": "select_columns", "src": T1, "columns": ["uid", a]}
+    r1 = {"op": "rename_columns", "src": {"op": "select_columns", "src": {"op": "select_rows", "src": T1, "expr": "uid <= 2"}, "columns": ["uid", b]}, "map": {"w": b}}
+    r2 = {"op": "rename_columns", "src": {"op": "select_columns", "src": {"op": "select_rows", "src": T1, "expr": "uid >= 2"}, "columns": ["uid", b]}, "map": {"w": b}}
+    r3 = {"op": "extend", "src": {"op": "select_columns", "src": T1, "columns": ["uid"]}, "ops": {"w": "uid * 7"}}
+    jt = rng.choice(["INNER", "LEFT", "RIGHT", "FULL"])
+    ra, rb = rng.sample([r1, r2, r3], 2)
+    pair = lambda x, y, idc=None: {"op": "concat_rows", "src": x, "b": y, "id_column": idc, "a_name": "l", "b_name": "r"}
+    nr.append(pair({"op": "natural_join", "src": L, "b": ra, "on": ["uid"], "jointype": jt}, {"op": "natural_join", "src": L, "b": rb, "on": ["uid"], "jointype": jt}, rng.choice([None, "src"])))
+    nr.append(pair({"op": "natural_join", "src": ra, "b": L, "on": ["uid"], "jointype": jt}, {"op": "natural_join", "src": rb, "b": L, "on": ["uid"], "jointype": jt}))
+    nr.append(pair({"op": "natural_join", "src": L, "b": ra, "on": ["uid"], "jointype": "LEFT"}, {"op": "natural_join", "src": L, "b": ra, "on": ["uid"], "jointype": rng.choice(["INNER", "RIGHT", "FULL"])}))
+    nr.append(pair({"op": "extend", "src": L, "ops": {"v": f"{a} + 1"}}, {"op": "extend", "src": L, "ops": {"v": f"{a} + 2"}}))
+    nr.append(pair({"op": "project", "src": L, "ops": {"v": f"{a}.max()"}, "group_by": []}, {"op": "project", "src": L, "ops": {"v": f"{a}.min()"}, "group_by": []}, "src"))
+    nr.append(pair({"op": "select_rows", "src": L, "expr": "uid <= 2"}, {"op": "select_rows", "src": L, "expr": "uid <= 3"}))
+    nr.append(pair({"op": "order_rows", "src": L, "columns": ["uid"], "reverse": [], "limit": 1}, {"op": "order_rows", "src": L, "columns": ["uid"], "reverse": ["uid"], "limit": 1}))
+    nr.append({"op": "natural_join", "src": {"op": "rename_columns", "src": {"op": "natural_join", "src": L, "b": ra, "on": ["uid"], "jointype": "INNER"}, "map": {"w1": "w", "a1": a}},
+               "b": {"op": "natural_join", "src": L, "b": rb, "on": ["uid"], "jointype": "INNER"}, "on": ["uid"], "jointype": "FULL"})
     return F
 
 
-def shaped_scripts(rng, tabs, n=5):
-    """one script of each of `n` families (join, prune, wkey and ccol always, when they apply)"""
+def shaped_scripts(rng, tabs, n=6):
+    """one script of each of `n` families (join, prune, wkey, ccol and near always, when they apply)"""
     F = {k: v for k, v in shaped_families(rng, tabs).items() if v}
-    fams = [f for f in ("join", "prune", "wkey", "ccol") if f in F]
+    fams = [f for f in ("join", "prune", "wkey", "ccol", "near") if f in F]
     rest = [f for f in F if f not in fams]
     rng.shuffle(rest)
     return [rng.choice(F[f]) for f in (fams + rest)[:n]]
@@ -496,6 +532,24 @@ def generate(rng, n, deep=False, share_bias=False):
     return cases[:n]
 
 
+def fixed_near_cases(rng):
+    """every run: all `near` shapes (sibling sub-queries differing in one place, combined by concat / join) on one table set"""
+    out = []
+    for _ in range(6):
+        try:
+            tabs = [pipes.gen_table(rng, f"d{i+1}", null_rate=0.0, nrows=5, types=("int", "float"), unique_col="uid") for i in range(2)]
+            for sc in shaped_families(rng, tabs).get("near", []):
+                try:
+                    out.append(make_case(sc, tabs, "near_fixed"))
+                except Exception:
+                    pass
+            if out:
+                break
+        except Exception:
+            continue
+    return out
+
+
 # ------------------------------------------------------------------------------------------------ the check (C01 and C02)
 
 def describe(case, variant, ra, rb, codes, ordered, why):
@@ -509,7 +563,7 @@ def run_check(chk, prop, variants, n, corpus_cases, finding_cases, deep=False, e
     engine_artifacts: conventions of the executing engine that are NOT conventions of the dialect under test (C02: nulls_first_asc)"""
     rng = chk.rng
     T = {"t0": time.time()}
-    cases = list(corpus_cases) + list(finding_cases) + generate(rng, n, deep, share_bias)
+    cases = list(corpus_cases) + list(finding_cases) + fixed_near_cases(rng) + generate(rng, n, deep, share_bias)
     primary = variants[0]
     entries, rows = [], []
     for c in cases:
@@ -617,7 +671,9 @@ def run_check(chk, prop, variants, n, corpus_cases, finding_cases, deep=False, e
                 continue
             # a convention case is reached
             explained = corr_ok and (100 in cd or (ordered and 101 in cd))
-            fs = fields(cd) or sorted({CAUSE_FIELD[x] for x in rel if x in CAUSE_FIELD})
+            # no single convention accounts for it (e.g. a null comparison inside an `and` needs cmp3 AND logic3): attribute it to the
+            # conventions of the reached causes in which the flavours really differ
+            fs = fields(cd) or sorted({CAUSE_FIELD[x] for x in rel if x in CAUSE_FIELD} & differing_fields())
             if not explained and 9 in strict_causes(cd):
                 # a limit / an order-sensitive window over tied keys: the result is under-determined (which of the tied rows comes first is
                 # not defined by the pipeline); the generators avoid it, a stray case is counted
